@@ -20,7 +20,7 @@ def main():
     quick = a.tier == "quick"
     sel = (lambda m, p: a.only in p.name()) if a.only else None
     recs = purity.run(MODULES, eff_seed(), sessions=1 if quick else 12, length=12 if quick else 30, select=sel,
-                      sweep=80 if quick else 100000)
+                      sweep=80 if quick else 100000, stability=14 if quick else 60)
     with scratch() as d:
         if not a.only:
             # the repository's own tests as sessions: one event per Procedure they create, one when the test ends
@@ -70,7 +70,9 @@ def main():
                        "text) and every live cursor (path, denoted node) is re-fingerprinted; TLC consumes an event only if "
                        "Immutable, CursorsStable and 'a failing operation defines nothing' hold; plus one session per test of the "
                        "repository's own test files (every Procedure the test creates re-fingerprinted after each creation and at "
-                       "test end) and one per file for the procedures created at import time")
+                       "test end) and one per file for the procedures created at import time; plus one stability session per corpus "
+                       "procedure: the outcomes (printed result / kind of error) of a sample of calls on it are handles, unrelated "
+                       "(mostly refused) operations on other procedures follow, and the same calls must then give the same outcomes")
     rep.assumptions += ["module-level caches are observed only through later results"]
     return rep.finish()
 
